@@ -257,6 +257,12 @@ AllNames == NameSets["four"] \cup {N_Point}
 \* names that are also type characters ("i", "s") and a name with "_" / digits
 Field == << <<"x">>, <<"i">>, <<"s","o","m","e","_","f","1">> >>
 Fields(n) == SubSeq(Field, 1, n)
+\* member names that are words of the languages the types are carried into (Go keywords and predeclared
+\* names, words of the IDL): in a signature they are names like any other
+WordNames == { <<"t","y","p","e">>, <<"r","a","n","g","e">>, <<"f","u","n","c">>, <<"m","a","p">>,
+               <<"d","e","f","a","u","l","t">>, <<"s","t","r","i","n","g">>, <<"e","r","r","o","r">>,
+               <<"i","n","t","e","r","f","a","c","e">>, <<"v","a","r">>, <<"g","o">>, <<"i","f">>,
+               <<"f","n">>, <<"s","t","r","u","c","t">>, <<"e","n","d">>, <<"i","n","t","3","2">>, <<"l","e","n">> }
 
 (***************************************************************************)
 (* Theorems about one type / one string                                     *)
